@@ -13,6 +13,7 @@ import (
 type zzSinkConn struct{ api.Connection }
 
 func (zzSinkConn) Write(...buffer.IoBuffer) error { return nil }
+func (zzSinkConn) State() api.ConnState          { return api.ConnActive }
 
 // VerifC08_H2ClientData: one DATA frame from the upstream peer, handled by the
 // upstream-side connection in an arbitrary state (known or unknown stream,
